@@ -21,7 +21,7 @@ go test -vet=off -count=1 -run 'TestSeedDemo' ./ > /tmp/$$.patched 2>&1; q=$?
 grep -E "^(--- FAIL|FAIL|ok|panic)" /tmp/$$.patched | head -5
 rm -f seed_demo_test.go
 echo "== full suite with patch (must pass)"
-go test -vet=off -count=1 -timeout 25m ./... > /tmp/$$.suite 2>&1; r=$?
+unshare -rn sh -c 'ip link set lo up; go test -vet=off -count=1 -timeout 25m ./...' > /tmp/$$.suite 2>&1; r=$?
 grep -E "^(--- FAIL|FAIL|ok)" /tmp/$$.suite | head -8
 if [ $r -ne 0 ]; then
   # timing-sensitive tests fail under load: re-run each failing top-level test up to 3 times
@@ -29,7 +29,7 @@ if [ $r -ne 0 ]; then
   for t in $(grep -E "^--- FAIL" /tmp/$$.suite | awk '{print $3}' | cut -d/ -f1 | sort -u); do
     okt=1
     for k in 1 2 3; do
-      if go test -vet=off -count=1 -run "^$t\$" ./... > /tmp/$$.re 2>&1; then okt=0; break; fi
+      if unshare -rn sh -c "ip link set lo up; go test -vet=off -count=1 -run '^$t\$' ./..." > /tmp/$$.re 2>&1; then okt=0; break; fi
     done
     echo "   re-run $t: $([ $okt -eq 0 ] && echo passes-on-retry || echo STILL-FAILS)"
     [ $okt -ne 0 ] && r=1
